@@ -25,6 +25,7 @@ import (
 	"crypto/x509"
 	"crypto/x509/pkix"
 	"encoding/base64"
+	"errors"
 	"fmt"
 	"io"
 	"math/big"
@@ -175,6 +176,16 @@ func (a *addHandler) handleUpdate(ctx context.Context, logID string, origin stri
 	trusted, updateErr := a.w.Update(ctx, logID, oldSize, newCP, proof)
 	// Whatever happened, we usually get the latest trusted CP from the witness (whether it's the old one or the one we've just updated to).
 	// If we get nothing at all, then something's gone quite wrong.
+	// The exceptions are refusals decided before the witness consults its stored state: these carry no
+	// checkpoint, and are well-defined protocol outcomes rather than internal errors.
+	if trusted == nil {
+		switch {
+		case errors.Is(updateErr, witness.ErrUnknownLog):
+			return http.StatusNotFound, nil, "", nil
+		case errors.Is(updateErr, witness.ErrNoValidSignature):
+			return http.StatusForbidden, nil, "", nil
+		}
+	}
 	if trusted == nil {
 		return http.StatusInternalServerError, nil, "", fmt.Errorf("something went quite wrong during update: %v", updateErr)
 	}
